@@ -43,7 +43,7 @@ ASSUMPTIONS = [
 ]
 TRUSTED = ["CPython inspect.getsource / linecache / importlib", "docstring_parser"]
 EXHAUSTIVE = {"quick": False, "thorough": False}
-THOROUGH_ROUNDS = 10   # thorough tier: this many generator passes with derived PRNG states (vcheck)
+THOROUGH_ROUNDS = 6   # thorough tier: this many generator passes with derived PRNG states (vcheck)
 
 KINDS = ["below", "above", "inline", "cls"]           # precedence order after the explicit help=
 POSITIONS = ["help", "below", "above", "inline", "cls"]
